@@ -64,6 +64,8 @@ const (
 	c17LocalForeign    = "https://l.example/n/other-tenants-value"
 	c17RemoteOwnedColl = "https://r1.example/c/owned-by-this-server"
 	c17LocalForeignCol = "https://l.example/c/other-tenants-collection"
+	c17BigColl         = "https://l.example/oc/big"
+	c17Unreachable     = "https://r9.example/u/unreachable-member"
 )
 
 // build attaches the chain to act and registers remote documents; it returns the 1-based hop
@@ -281,8 +283,11 @@ func C17(tier string) int {
 		maxAddr, maxDepth, limits = 3, 5, []int{1, 2, 3, 4}
 	}
 	entries := []string{Col1, OCol1, RCol, Note1, Carol, c17RemoteOwnedColl, c17LocalForeignCol}
-	isOwnedColl := map[string]bool{Col1: true, OCol1: true, c17RemoteOwnedColl: true}
-	members := map[string][]string{Col1: {Carol, Dave}, OCol1: {Dave}, c17RemoteOwnedColl: {Erin, Carol}}
+	isOwnedColl := map[string]bool{Col1: true, OCol1: true, c17RemoteOwnedColl: true, c17BigColl: true}
+	// (the big collection: nine members; the one in the middle has no fetchable document - forwarding hands
+	// the members to the transport as they are listed, it does not look them up)
+	members := map[string][]string{Col1: {Carol, Dave}, OCol1: {Dave}, c17RemoteOwnedColl: {Erin, Carol},
+		c17BigColl: {Peer(0), Peer(1), Peer(2), Peer(3), c17Unreachable, Peer(4), Peer(5), Peer(6), Peer(7)}}
 	var addrSeqs [][]string
 	var gen func(cur []string)
 	gen = func(cur []string) {
@@ -328,7 +333,21 @@ func C17(tier string) int {
 			}
 		}
 	}
-	res.Rule = fmt.Sprintf("activities whose to/cc/audience hold every sequence of <= %d entries over {owned Collection, owned OrderedCollection, foreign collection, owned non-collection, remote actor, an owned collection on a foreign host, another tenant's collection on the local host}; reply chains of depth 0..%d through inReplyTo/object/target/tag with every embedded / dereferenced-IRI form per link, the final value owned or not, plus chains broken by a missing or unknown-type document, diamonds (one fetched or embedded value referenced on two paths of different length, the owned value below it), and chains ending in a Link-derived value (Mention named by href only; Link whose id and href disagree, the owned one being the id or only the href); depth limit %v and the unlimited settings 0 and -1; filter {all, first only, none, last only (filtering the slice it is handed in place), all (reversing it in place)}; delivery histories {A, AA, AB, BAA, ABA} over two local inboxes; %d histories, each a sequence of real requests on one application state; oracle: forwarded (once, on the first delivery) iff an owned (Ordered)Collection is addressed and an owned value lies within the limit; recipients are the members of exactly the collections the filter returned; payload equals the received body and is not changed after it was handed to the transport (the model keeps the very slice); the activity is recorded exactly once; plus 16 activities that have a default side effect (Create by IRI / embedded, Update, Delete, Like, Announce, Add, Remove, Follow, Accept, Reject, Undo, Block), with and without application hooks, meeting the three conditions: forwarded once, payload and recorded copy equal to the received activity; two different activities in a row on one Actor that reach one remote document at different depths (either order): each judged by its own depth; states = distinct application states reached, transitions = requests", maxAddr, maxDepth, limits, len(cases))
+	// an owned collection of nine members (one of them unreachable): every reachable member gets the forward
+	for ci, ch := range chains {
+		if ci%3 != 0 && !res.Thorough() {
+			continue
+		}
+		for _, addr := range [][]string{{c17BigColl}, {c17BigColl, Col1}, {OCol1, c17BigColl}} {
+			for _, lim := range []int{3, 0} {
+				for _, f := range []ap.FilterMode{ap.FilterAll, ap.FilterFirst} {
+					props := []string{"to", "cc"}[:len(addr)]
+					cases = append(cases, c17case{addr: addr, props: props, chain: ch, limit: lim, filter: f, history: histories[ci%2]})
+				}
+			}
+		}
+	}
+	res.Rule = fmt.Sprintf("activities whose to/cc/audience hold every sequence of <= %d entries over {owned Collection, owned OrderedCollection, foreign collection, owned non-collection, remote actor, an owned collection on a foreign host, another tenant's collection on the local host}; reply chains of depth 0..%d through inReplyTo/object/target/tag with every embedded / dereferenced-IRI form per link, the final value owned or not, plus chains broken by a missing or unknown-type document, diamonds (one fetched or embedded value referenced on two paths of different length, the owned value below it), and chains ending in a Link-derived value (Mention named by href only; Link whose id and href disagree, the owned one being the id or only the href); depth limit %v and the unlimited settings 0 and -1; filter {all, first only, none, last only (filtering the slice it is handed in place), all (reversing it in place)}; plus an owned collection of nine members (all of them get the forward, in one hand-over); delivery histories {A, AA, AB, BAA, ABA} over two local inboxes; %d histories, each a sequence of real requests on one application state; oracle: forwarded (once, on the first delivery) iff an owned (Ordered)Collection is addressed and an owned value lies within the limit; recipients are the members of exactly the collections the filter returned; payload equals the received body and is not changed after it was handed to the transport (the model keeps the very slice); the activity is recorded exactly once; plus 16 activities that have a default side effect (Create by IRI / embedded, Update, Delete, Like, Announce, Add, Remove, Follow, Accept, Reject, Undo, Block), with and without application hooks, meeting the three conditions: forwarded once, payload and recorded copy equal to the received activity; two different activities in a row on one Actor that reach one remote document at different depths (either order): each judged by its own depth; states = distinct application states reached, transitions = requests", maxAddr, maxDepth, limits, len(cases))
 	res.Assumptions = []string{"locks are counted, not blocking (a collection addressed twice is C09's known finding)", "a dereferenced document that is not JSON aborts the search with an error and is left to C11"}
 	var mu sync.Mutex
 	states := map[uint64]struct{}{}
@@ -362,6 +381,8 @@ func C17(tier string) int {
 			a.PutDoc(Doc("Note", c17LocalForeign, "content", "another tenant's"))
 			a.PutDoc(Doc("Collection", c17RemoteOwnedColl, "items", L{Erin, Carol}))
 			a.PutDoc(Doc("Collection", c17LocalForeignCol, "items", L{Dave}))
+			ManyPeers(a, 8)
+			a.PutDoc(Doc("OrderedCollection", c17BigColl, "orderedItems", L{Peer(0), Peer(1), Peer(2), Peer(3), c17Unreachable, Peer(4), Peer(5), Peer(6), Peer(7)}))
 			// expected
 			var ownedColls []string
 			seen := map[string]bool{}
